@@ -6,7 +6,7 @@ ASSUME = [
     'receiving node: every transition is also executed the way the node executes it whose HTTP handler received the POSTs (ThrottleUntil called ten times per client line with the wall clock 1 ms behind the previous message of the session: the one IRCServer mutator the handlers call outside the log); outputs and state must equal the node that only applied the log, the throttle counter itself is masked',
     'every transition is first executed twice without any deviation on fresh instances in the same process: a different result is reported as a violation (process-global state left behind by an earlier execution influences the result); such findings are re-executed in five fresh processes',
     'map iteration order is owned through the overlaid runtime (tools/rtpatch.py): every range over a map with >=2 elements on the harness goroutine is a choice point; for maps of <=8 elements the alternatives are all rotations the runtime can produce (8<<B start positions, capped at 16 for larger maps)',
-    'wall clock owned through the overlaid time.Now; replica B runs shifted by +400d 3h 7m 11s',
+    'wall clock owned through the overlaid time.Now; replica B runs shifted by +400d 3h 7m 11s and was constructed with another server start time (the start time itself is masked: numeric 003 and the state field)',
     'deviation bound: one deviating choice point per transition (all pairs in the thorough tier); the prefix is replayed with default choices',
     'numeric 003 (server start time) is masked; recipient sets are compared as sets',
     'glue mirror VerifApply == (*FSM).applyRobustMessage, established by TestVerifGlueConformance (package main, real FSM glue) in the same check',
